@@ -515,6 +515,51 @@ func parseCase(c DecodeCase) (*abiref.Type, abiref.Value, abi.ParameterArray, er
 	return t, v, pa, nil
 }
 
+// checkOutput judges one piece of serializer output: it is well-formed JSON, denotes the value v
+// under the documented meaning of the combination cb, and (object / flat modes with hex
+// renderings) parses back through pa to the bytes data.
+func checkOutput(t *abiref.Type, v abiref.Value, pa abi.ParameterArray, data []byte, cb combo, out []byte, api string) (vs []evid.Violation) {
+	dec := json.NewDecoder(bytes.NewReader(out))
+	dec.UseNumber()
+	var j interface{}
+	if err := dec.Decode(&j); err != nil {
+		return append(vs, evid.V("serialized-json-well-formed", "%s [%s]: %v in %s", api, cb, err, clip(string(out))))
+	}
+	if !json.Valid(out) {
+		return append(vs, evid.V("serialized-json-well-formed", "%s [%s]: text after the JSON value in %s", api, cb, clip(string(out))))
+	}
+	got, err := outReader{cb}.read(t, j, "")
+	if err != nil {
+		clause := "serialized-json-denotes-value"
+		if strings.Contains(err.Error(), "number-if-fits") {
+			clause = "number-if-fits-threshold"
+		}
+		return append(vs, evid.V(clause, "%s [%s]: %v", api, cb, err))
+	}
+	if !abiref.Equal(t, got, v) {
+		return append(vs, evid.V("serialized-json-denotes-value", "%s [%s]: %s", api, cb, firstDifference(t, got, v, "")))
+	}
+	// (iii) object / flat modes with hex renderings parse back to the same bytes
+	if cb.mode <= 1 && cb.bytes <= 1 {
+		var re []byte
+		var perr error
+		if pv := evid.Guard("no-panic", func() {
+			var cv3 *abi.ComponentValue
+			if cv3, perr = pa.ParseJSON(out); perr == nil {
+				re, perr = cv3.EncodeABIData()
+			}
+		}); pv != nil {
+			return append(vs, *pv)
+		}
+		if perr != nil {
+			vs = append(vs, evid.V("parse-serialized-reencodes", "[%s]: ParseJSON/EncodeABIData of the serializer's own output failed: %v; output %s", cb, perr, clip(string(out))))
+		} else if !bytes.Equal(re, data) {
+			vs = append(vs, evid.V("parse-serialized-reencodes", "[%s]: re-encoding the parsed output gives different bytes (%d vs %d); output %s", cb, len(re), len(data), clip(string(out))))
+		}
+	}
+	return vs
+}
+
 func judgeDecode(c DecodeCase) (vs []evid.Violation) {
 	t, v, pa, err := parseCase(c)
 	if err != nil {
@@ -556,45 +601,7 @@ func judgeDecode(c DecodeCase) (vs []evid.Violation) {
 
 	// (ii)-(iv) every serializer combination
 	check := func(cb combo, out []byte, api string) {
-		dec := json.NewDecoder(bytes.NewReader(out))
-		dec.UseNumber()
-		var j interface{}
-		if err := dec.Decode(&j); err != nil {
-			vs = append(vs, evid.V("serialized-json-well-formed", "%s [%s]: %v in %s", api, cb, err, clip(string(out))))
-			return
-		}
-		got, err := outReader{cb}.read(t, j, "")
-		if err != nil {
-			clause := "serialized-json-denotes-value"
-			if strings.Contains(err.Error(), "number-if-fits") {
-				clause = "number-if-fits-threshold"
-			}
-			vs = append(vs, evid.V(clause, "%s [%s]: %v", api, cb, err))
-			return
-		}
-		if !abiref.Equal(t, got, v) {
-			vs = append(vs, evid.V("serialized-json-denotes-value", "%s [%s]: %s", api, cb, firstDifference(t, got, v, "")))
-			return
-		}
-		// (iii) object / flat modes with hex renderings parse back to the same bytes
-		if cb.mode <= 1 && cb.bytes <= 1 {
-			var re []byte
-			var perr error
-			if pv := evid.Guard("no-panic", func() {
-				var cv3 *abi.ComponentValue
-				if cv3, perr = pa.ParseJSON(out); perr == nil {
-					re, perr = cv3.EncodeABIData()
-				}
-			}); pv != nil {
-				vs = append(vs, *pv)
-				return
-			}
-			if perr != nil {
-				vs = append(vs, evid.V("parse-serialized-reencodes", "[%s]: ParseJSON/EncodeABIData of the serializer's own output failed: %v; output %s", cb, perr, clip(string(out))))
-			} else if !bytes.Equal(re, data) {
-				vs = append(vs, evid.V("parse-serialized-reencodes", "[%s]: re-encoding the parsed output gives different bytes (%d vs %d); output %s", cb, len(re), len(data), clip(string(out))))
-			}
-		}
+		vs = append(vs, checkOutput(t, v, pa, data, cb, out, api)...)
 	}
 	var out []byte
 	if pv := evid.Guard("no-panic", func() { out, err = cv.JSON() }); pv != nil {
@@ -796,6 +803,9 @@ func TestCheck(t *testing.T) {
 	rec.Assume("number-if-fits is read as: JSON number iff |i| <= 2^53-1 (the JavaScript safe-integer range), else base-10 string")
 	kDec := evid.NewKind(rec, "decode", judgeDecode)
 	cpool := evid.NewPool(rec, "concurrent", judgeDecode, 64)
+	kHist := evid.NewKind(rec, "history", judgeHistory)
+	kShared := evid.NewKind(rec, "shared", judgeShared).DeclareEach()
+	rec.Assume("caller-owned memory: the bytes to decode are handed over inside a larger caller-owned receive buffer that is re-used for the next message; the decoder must not write to it and the returned tree must not refer to it; results of one Serializer must survive later calls on the same Serializer (one Serializer per goroutine: concurrent use of a single Serializer is not asserted)")
 	rec.Corpus(t)
 
 	t.Run("exhaustive-integer-boundaries", func(t *testing.T) { sweep(t, rec, kDec) })
@@ -826,6 +836,14 @@ func TestCheck(t *testing.T) {
 		kDec.Check(rt, c, nt, cl...)
 	})
 	cpool.Run(t, 8, 3, 16)
+	rec.Rapid(t, "history", rec.N(2500, 15000), func(rt *rapid.T) {
+		c, nt, cl := genHistory(rt)
+		kHist.Check(rt, c, nt, cl...)
+	})
+	rec.Rapid(t, "shared", rec.N(30, 120), func(rt *rapid.T) {
+		c, nt, cl := genShared(rt)
+		kShared.Check(rt, c, nt, cl...)
+	})
 }
 
 // sweep: every integer type x boundary values (range ends, 0, +-1, +-(2^53-2 … 2^53+2)) decoded
@@ -886,5 +904,7 @@ func TestReplay(t *testing.T) {
 	rec := evid.Start("C03", rule)
 	evid.NewKind(rec, "decode", judgeDecode)
 	evid.NewPool(rec, "concurrent", judgeDecode, 0)
+	evid.NewKind(rec, "history", judgeHistory)
+	evid.NewKind(rec, "shared", judgeShared)
 	rec.Replay(t)
 }
